@@ -26,6 +26,9 @@ GUARDS = [
     ("MC_Random_guard_size_not_minus_1_LawFactories.cfg", "LawFactories"),
     ("MC_Random_guard_no_empty_guard_LawFactories.cfg", "LawFactories"),
     ("MC_Random_guard_rewind_LawCursorMonotone.cfg", "LawCursorMonotone"),
+    ("MC_Random_guard_convert_to_max_from_a_LawTransparent.cfg", "LawTransparent"),
+    ("MC_Random_guard_convert_to_max_from_a_LawReadBack.cfg", "LawReadBack"),
+    ("MC_Random_guard_convert_to_max_from_a_LawEndsReached.cfg", "LawEndsReached"),
 ]
 # hidden-state model (draws interleaved with reset()): MCRandomState.tla
 STATE_GUARDS = [
